@@ -62,8 +62,9 @@ static inline WsParsed WsFrame_parse_stub(iora_sview view, size_t *consumed) {
   return r; }
 /* handleFrame runs callbacks outside the lock and may erase the session (inbound CLOSE) or mark closeSent; meanwhile more bytes may arrive and be
  * appended to the session buffer by a concurrent onUpgradedData call (R11: anything the monitor allows) */
+bool G_hf_erased;   /* ghost: some handleFrame call of this onUpgradedData erased the session (inbound CLOSE) */
 static inline void WsServer_handleFrame(WsServer *self, SessionId sid, const WsParsed *frame) { (void)sid; (void)frame;
-  if (nondet_bool()) { self->has_gs = false; return; }
+  if (nondet_bool()) { self->has_gs = false; G_hf_erased = true; return; }
   if (self->has_gs) { size_t a = nondet_size_t(); IORA_ASSUME(a <= ((size_t)1 << 40) && G_arrived <= ((size_t)1 << 62) - a);
     self->gs.buffer.hi += a; G_arrived += a; self->gs.closeSent = nondet_bool(); } }
 
@@ -115,8 +116,9 @@ void WsClient_sendClose(WsClient *self, uint16_t code, const char *reason);
 
 size_t G_L_hi;   /* ghost: end of the local buffer of the running onUpgradedData call (bound in its contract) */
 #define IORA_LOOP_WsServer_onUpgradedData_1 IORA_LC( \
-  __CPROVER_assigns(offset, G_next, G_arrived, self->has_gs, self->gs) \
+  __CPROVER_assigns(offset, G_next, G_arrived, self->has_gs, self->gs, G_hf_erased) \
   __CPROVER_loop_invariant(offset <= localBuffer.hi - localBuffer.lo && G_next == localBuffer.lo + offset) \
   __CPROVER_loop_invariant(localBuffer.lo <= localBuffer.hi && localBuffer.hi <= G_arrived && G_arrived <= ((size_t)1 << 62)) \
   __CPROVER_loop_invariant(self->has_gs ==> (self->gs.buffer.lo == localBuffer.hi && self->gs.buffer.hi == G_arrived)) \
+  __CPROVER_loop_invariant((__CPROVER_loop_entry(self->has_gs) && !G_hf_erased) ==> self->has_gs) \
   __CPROVER_decreases(localBuffer.hi - localBuffer.lo - offset))
